@@ -207,10 +207,15 @@ def _verify_text(res, text, linemap, gen, out_dir, rlimit, timeout, extra_args):
     lines = text.split("\n")
     # tagged obligations
     tagged = {}
+    also = {}
     for i, ln in enumerate(lines):
         m = re.search(r"//\s*@OBL\s+(\S+)", ln)
         if m:
             tagged[i + 1] = m.group(1)
+            # `@ALSO C02,C08`: the clause is also an obligation of those properties (counted and reported by their checks too)
+            ma = re.search(r"@ALSO\s+([\w,]+)", ln)
+            if ma:
+                also[m.group(1)] = [x for x in ma.group(1).split(",") if x]
     res.tagged = len(tagged)
     canary_lines = {i + 1 for i, ln in enumerate(lines) if "@CANARY" in ln}
     cmd = ["verus", gen, "--output-json", "--error-format=json", "--multiple-errors", "40", "--time", "--num-threads", "8"]
@@ -330,7 +335,7 @@ def _verify_text(res, text, linemap, gen, out_dir, rlimit, timeout, extra_args):
     for ln, oid in sorted(tagged.items()):
         if oid in failed_by_id:
             continue
-        res.obligations.append({"id": oid, "fn": _enclosing_item(lines, ln), "kind": "tagged", "status": "discharged", "backend": "verus/z3"})
+        res.obligations.append({"id": oid, "fn": _enclosing_item(lines, ln), "kind": "tagged", "status": "discharged", "backend": "verus/z3", "also": also.get(oid, [])})
     impl_failed_fns = {v["fn"] for v in failed_ids.values()}
     for nm, info in res.verified_fns.items():
         short = nm.split("::")[-1]
@@ -340,6 +345,8 @@ def _verify_text(res, text, linemap, gen, out_dir, rlimit, timeout, extra_args):
         res.obligations.append({"id": "%s.implicit" % short, "fn": short, "kind": "implicit-safety+body", "status": st,
                                 "backend": "verus/z3", "ms": info["ms"], "rlimit": info["rlimit"]})
     res.failed = list(failed_by_id.values())
+    for f in res.failed:
+        f["also"] = also.get(f["id"], [])
     # functions that were extracted must have been verified
     for r in res.functions:
         nm = r["emitted_as"]
